@@ -45,7 +45,14 @@ PROBES = [
 
 EINTR = 4
 ACTION_NAMES = {1: "EIO", 2: "ENOSPC", 3: "EPIPE", 4: "EACCES", 5: "EMFILE", 6: "EINTR", 7: "SHORT_THEN_ENOSPC", 9: "PLAIN_SHORT",
-                12: "EAGAIN"}   # EAGAIN: the descriptor was inherited in non-blocking mode and no data is ready
+                12: "EAGAIN",   # EAGAIN: the descriptor was inherited in non-blocking mode and no data is ready
+                20: "ERRNO"}    # any other errno a deployment can meet (argument = errno)
+# errno values by call kind for action 20 (network file systems, sockets as stdin/stdout, quotas, odd devices)
+READ_ERRNOS = [22, 12, 116, 110, 104, 6]             # EINVAL ENOMEM ESTALE ETIMEDOUT ECONNRESET ENXIO
+# (EBADF is not injected: a descriptor that was valid cannot start returning it, and Rust's std deliberately
+# treats EBADF on the standard streams as 'closed' = end of input / data discarded)
+WRITE_ERRNOS = [27, 122, 30, 6, 104, 22, 12, 116]    # EFBIG EDQUOT EROFS ENXIO ECONNRESET EINVAL ENOMEM ESTALE
+OPEN_ERRNOS = [23, 12, 30, 26, 75, 1, 16, 19, 116]   # ENFILE ENOMEM EROFS ETXTBSY EOVERFLOW EPERM EBUSY ENODEV ESTALE
 
 # fixture paths (relative to the run directory)
 GOOD = "d/good.txt"
@@ -239,6 +246,21 @@ def systematic_cases():
                 case([{"op": "pcap_stream", "which": "stdin", "var": "p"}] + ([{"op": "pcap_read_next", "h": "p"}] if warm else []) +
                      [{"op": "pcap_read_next", "h": "p", "fault": ["R", nth, act, 0]}, {"op": "pcap_read_all", "h": "p", "n": None, "fault": ["R", nth, act, 0]}], stdin="pcap",
                      note="pcap reads on stdin with %s" % ACTION_NAMES[act])
+    # C2. less common errno values (std maps some of them to special ErrorKinds)
+    for en in READ_ERRNOS:
+        pre = [{"op": "open", "path": GOOD, "mode": "r", "var": "h"}]
+        for opd in ({"op": "read", "h": "h", "n": 12000}, {"op": "read_line", "h": "h"}, {"op": "read_to_string", "h": "h"}):
+            case(pre + [dict(opd, fault=["R", 1, 20, en]), {"op": "read", "h": "h", "n": 5}], note="%s with errno %d on read(2)" % (opd["op"], en))
+        case([{"op": "read_line", "h": "stdin", "fault": ["R", 1, 20, en]}, {"op": "read", "h": "stdin", "n": 4}], note="read_line(stdin) with errno %d" % en)
+        case([{"op": "pcap_open", "path": GOODP, "mode": "r", "var": "p"}, {"op": "pcap_read_next", "h": "p", "fault": ["R", 1, 20, en]}, {"op": "pcap_read_all", "h": "p", "n": None}], note="pcap_read_next with errno %d" % en)
+    for en in WRITE_ERRNOS:
+        opn = [{"op": "open", "path": fresh_path(0), "mode": "w", "var": "h"}]
+        case(opn + [{"op": "write", "h": "h", "data": _wd("small")}, {"op": "flush", "h": "h", "fault": ["W", 1, 20, en]}], note="flush with errno %d" % en)
+        case(opn + [{"op": "write", "h": "h", "data": _wd("big"), "fault": ["W", 1, 20, en]}], note="write with errno %d" % en)
+        case([{"op": "write", "h": "stdout", "data": _wd("small"), "fault": ["W", 1, 20, en]}], note="write(stdout) with errno %d" % en)
+    for en in OPEN_ERRNOS:
+        case([{"op": "open", "path": GOOD, "mode": "r", "var": "h", "fault": ["O", 1, 20, en]}], note="open r with errno %d" % en)
+        case([{"op": "pcap_open", "path": fresh_path(1), "mode": "w", "var": "p", "fault": ["O", 1, 20, en]}], note="pcap_open w with errno %d" % en)
     # D. injected errno on write(2)
     for act in (2, 7, 1, 3, 6, 9):
         for nth in (1, 2):
@@ -369,10 +391,16 @@ def gen_random(rng, deep=False):
         o = ops[i]
         if o["op"] in ("open", "pcap_open") and rng.chance(35):
             o["fault"] = ["O", 1, rng.choice([4, 5, 6]), 0]
+            if rng.chance(30):
+                o["fault"] = ["O", 1, 20, rng.choice(OPEN_ERRNOS)]
         elif o["op"] in ("read", "read_line", "read_to_string", "pcap_read_next", "pcap_read_all", "pcap_stream") or (o["op"] == "pcap_open" and o["mode"] == "r"):
             o["fault"] = ["R", rng.weighted([(70, 1), (20, 2), (10, 3)]), rng.weighted([(60, 1), (22, 6), (18, 12)]), 0]
+            if rng.chance(25):
+                o["fault"] = ["R", o["fault"][1], 20, rng.choice(READ_ERRNOS)]
         elif o["op"] in ("write", "flush", "pcap_write"):
             o["fault"] = ["W", rng.weighted([(75, 1), (25, 2)]), rng.weighted([(30, 2), (25, 7), (12, 1), (13, 3), (10, 6), (10, 9)]), rng.choice([1, 3, 100, 4096, 8000])]
+            if rng.chance(20):
+                o["fault"] = ["W", o["fault"][1], 20, rng.choice(WRITE_ERRNOS)]
         else:
             continue
         placed += 1
@@ -690,6 +718,8 @@ def _evdesc(errs):
 
 def _cause(op, errs, injected):
     if injected:
+        if injected[0].action == 20:
+            return "errno%d" % injected[0].errno
         return ACTION_NAMES.get(injected[0].action, "inj")
     if errs:
         return "errno%d" % errs[0].errno
